@@ -17,7 +17,10 @@ class StatementSplitter:
     def _reset(self):
         """Set the filter attributes to its default values"""
         self._in_declare = False
-        self._in_case = 0
+        # levels at which the CASE blocks that raised the level were opened
+        # (innermost last): an END closes a CASE only if nothing that is
+        # closed by END too (a BEGIN block) was opened since
+        self._case_levels = []
         self._is_create = False
         self._begin_depth = 0
         self._in_loop_header = False
@@ -77,9 +80,9 @@ class StatementSplitter:
 
         # BEGIN and CASE/WHEN both end with END
         if unified == 'END':
-            if self._in_case:
-                # closes a CASE that raised the level
-                self._in_case -= 1
+            if self._case_levels and self._case_levels[-1] == self.level - 1:
+                # closes the innermost CASE that raised the level
+                self._case_levels.pop()
                 return -1
             if self._begin_depth > 0:
                 self._begin_depth -= 1
@@ -95,7 +98,7 @@ class StatementSplitter:
                 # DROP TABLE IF EXISTS ... / CREATE TABLE IF NOT EXISTS ...
                 return 0
             if unified == 'CASE':
-                self._in_case += 1
+                self._case_levels.append(self.level)
             elif unified in ('FOR', 'WHILE'):
                 # a following LOOP belongs to this FOR/WHILE
                 self._in_loop_header = True
@@ -114,8 +117,8 @@ class StatementSplitter:
 
         if unified == 'END CASE':
             # closes a CASE statement; only a counted CASE raised the level
-            if self._in_case:
-                self._in_case -= 1
+            if self._case_levels:
+                self._case_levels.pop()
                 return -1
             return 0
 
